@@ -342,7 +342,7 @@ func c18_1(c *core.Ctx, p *core.Prog) {
 		}
 	})
 	if len(preds) == 0 {
-		c.Undecided("pred", p.Pos(a.exportFn.Pos()), core.FuncName(a.exportFn), "the export goroutine calls no func([]contributor) bool predicate: single-context detection not found")
+		c.Undecided("pred", p.Pos(a.exportFn.Pos()), core.FuncName(a.exportFn), "the export goroutine calls no func([]contributor) bool predicate over the whole contributor list: the single-context decision is computed some other way (e.g. a flag maintained while the batch is assembled), and this rule cannot show that every contributor — including one only partly in the batch — is compared; a contributor that is not compared lets a mixed batch be exported under the first caller's context")
 	}
 	for _, f := range cbpFuncs(c, p) {
 		if core.IsCanaryPath(core.FnPkgPath(f)) && isCtxTupleSlicePred(f) {
